@@ -102,14 +102,14 @@ def judge(mode, out, parser, rendered, ntoks_total, all_read):
         if res.status == "incomplete":
             raise Violation("C01/accepts-invalid/EOF_INCOMPLETE/%s" % res.open_cmd,
                             {"script": _txt(rendered)})
-        if mode == "c03":
+        if mode in ("c03", "c20"):
             got = tuple(P.normalise(c) for c in parser.result)
             want = P.ref_tree(res.tree)
             if got != want:
                 raise Violation("C03/tree/%s" % _first_diff(got, want),
                                 {"script": _txt(rendered), "got": repr(got), "want": repr(want)})
-        if mode == "c04":
-            roundtrip(parser, rendered)
+        if mode in ("c04", "c20"):
+            roundtrip(parser, rendered, "C04" if mode == "c04" else "C20")
         return "accepted"
     # the parser rejected
     if res.status == "reject":
